@@ -52,8 +52,8 @@ from psyclone.psyir.nodes import (
 from psyclone.psyir.symbols import (
     ArgumentInterface, ArrayType, ContainerSymbol, DataSymbol, DataTypeSymbol,
     GenericInterfaceSymbol, IntrinsicSymbol, PreprocessorInterface,
-    RoutineSymbol, ScalarType, StructureType, Symbol, SymbolTable,
-    UnresolvedInterface, UnresolvedType, UnsupportedFortranType,
+    RoutineSymbol, ScalarType, StructureType, Symbol, SymbolError,
+    SymbolTable, UnresolvedInterface, UnresolvedType, UnsupportedFortranType,
     UnsupportedType, )
 
 
@@ -1293,6 +1293,30 @@ class FortranWriter(LanguageWriter):
                     skip = [rsym] if isinstance(rsym, RoutineSymbol) else []
                 except KeyError:
                     skip = []
+                if schedule is not node:
+                    # A symbol of an inner scope that has the same name as a
+                    # symbol that is visible from outside the routine (e.g.
+                    # one declared in the parent Container) would, once it
+                    # is declared at routine level, capture every reference
+                    # to that outer symbol in the rest of the routine. It is
+                    # therefore renamed before the scopes are merged.
+                    for sym in sched_table.symbols:
+                        if (not isinstance(sym, (DataSymbol, DataTypeSymbol))
+                                or sym.name in whole_routine_scope):
+                            # Clashes at routine level are handled by merge()
+                            continue
+                        try:
+                            whole_routine_scope.lookup(sym.name)
+                        except KeyError:
+                            continue
+                        try:
+                            sched_table.rename_symbol(
+                                sym, whole_routine_scope.next_available_name(
+                                    sym.name, other_table=sched_table))
+                        except SymbolError:
+                            # Imported/unresolved symbols denote the same
+                            # entity as the one in the outer scope.
+                            pass
                 whole_routine_scope.merge(sched_table, skip)
                 if schedule is node:
                     # Replace the Routine's symbol table as soon as we've
